@@ -57,6 +57,21 @@ def md5_gate_rule(ctx, rule):
         for (a, t) in fs:
             if a[0] == "true" and t and is_md5_verdict(a[1]):
                 md5 = True
+        if not md5:
+            # the same decision seen path-wise (`match content_md5 { Some(m) => check_md5(m), None => true }` reaches complete() on two paths):
+            # every path passes either `content_md5 is None` or a true check_md5 verdict
+            def md5_gate(n):
+                if n[0] != "e":
+                    return False
+                for (a, t) in flow.edge_facts(n):
+                    if a[0] == "variant" and a[2] in ("None", "Some") and ((a[2] == "None") == t) and \
+                            re.search(r"^(Option::as_ref\()?&?self\.content_md5\)?$", show(sl.expand(a[1]), 300)):
+                        return True
+                    if a[0] == "true" and t and (is_md5_verdict(a[1]) or any(
+                            z[0] == "call" and z[1] == BW + "::check_md5" and "content_md5" in show(sl.expand(z), 600) for z in walk(sl.expand(a[1])))):
+                        return True
+                return False
+            md5, _w = flow.must_pass(0, [s.bb], md5_gate)
         key = "write_blocks -> complete"
         if done and md5:
             rule.ok(key, "behind is_completed() and the MD5 verdict", s.loc)
@@ -69,7 +84,8 @@ def md5_gate_rule(ctx, rule):
     for s in errs:
         fs = flow.facts_at(s.bb)
         for (a, t) in fs:
-            if a[0] == "true" and not t and is_md5_verdict(a[1]):
+            if a[0] == "true" and not t and (is_md5_verdict(a[1]) or any(
+                    z[0] == "call" and z[1] == BW + "::check_md5" and "content_md5" in show(sl.expand(z), 600) for z in walk(sl.expand(a[1])))):
                 okerr = True
     if okerr:
         rule.ok("write_blocks md5 mismatch -> error", "", errs[0].loc)
